@@ -5,7 +5,7 @@ A real Proxy/BatchProxy talks to a real Daemon through the in-process loopback t
 one, the same calls one by one (stopping at the first exception) on the other; final totals,
 execution logs and what the caller saw are compared (oracle) and both runs are compared with
 Model/Batch.v evaluated inside Coq (correspondence).  DESIGN.md section 6 (C11)."""
-import re
+import json, re
 from tools.lib import vlib
 from tools.lib.vlib import cZ, cbool, clist
 
@@ -24,6 +24,12 @@ METH = {"add": "MAdd", "mul": "MMul", "get": "MGet", "sub": "MSub", "div": "MDiv
         "__len__": "MLen", "__getitem__": "MGetItem", "gated": "MGated",
         "__secret": "MDSecret", "__hidden__": "MDHidden", "__del__": "MDDel", "lasterr": "MLastErr"}
 EXPOSED = ["add", "mul", "get", "sub", "div", "boom", "__len__", "__getitem__", "gated", "lasterr"]
+# how the daemon under test words the refusal of each refused name when it is called alone (probed per run; the wording
+# and even the class are incidental: the model only knows "refused because private / unexposed / missing")
+WHY = {"hidden": "WUnexposed", "_secret": "WPrivate", "__init__": "WPrivate", "nosuch": "WMissing", "add.__call__": "WMissing",
+       "__secret": "WPrivate", "__hidden__": "WUnexposed", "__del__": "WPrivate"}
+REFUSAL_SEEN = {}
+EXC_SINGLE_ONLY = set()  # serializers that carry a returned exception object for a single call but not inside a batch's result list
 CARRIES_EXC = set()      # serializers that can carry an exception OBJECT inside a list result (probed per run)
 REFUSED = ["hidden", "_secret", "__init__", "nosuch", "add.__call__", "__secret", "__hidden__", "__del__"]
 NOARG = ("get", "__init__", "__len__", "__secret", "__hidden__", "__del__")
@@ -278,6 +284,14 @@ def oracle(case, obs):
     n = len(os_["log"])
     seq_fail = os_["outs"][-1][1] if os_["outs"] and os_["outs"][-1][0] == "exc" else None
     view = ob["view"]
+    returned_exc = [i for i, o in enumerate(os_["outs"]) if o[0] == "ok" and isinstance(o[1], dict) and "excval" in o[1]]
+    if view[0] == "raised" and not case["oneway"] and returned_exc and view[1] != seq_fail \
+            and ob["log"] == os_["log"] and ob["state"] == os_["state"]:
+        # the right calls ran, but a member's VALUE (an exception object it returned) could not be put into the batch reply
+        return [("batch-returned-exception-unserializable", "call %d succeeds and returns an exception object (made alone it yields %s%r as a plain result); the batch (serializer %s) "
+                 "executed the same calls but its submission raised %s%r instead of yielding the results" % (
+                     returned_exc[0], os_["outs"][returned_exc[0]][1]["excval"]["cls"], tuple(os_["outs"][returned_exc[0]][1]["excval"]["args"]),
+                     case["ser"], view[1]["cls"], tuple(view[1]["args"])))]
     if view[0] == "raised" and not case["oneway"] and seq_fail is not None and view[1] != seq_fail \
             and ob["log"] == os_["log"] and ob["state"] == os_["state"] and len(os_["log"]) == len(os_["outs"]):
         # the right calls ran and a member raised, but what reaches the caller is not that member's exception
@@ -334,14 +348,9 @@ def c_exn(x):
         return "EZeroDiv"
     if cls == "RuntimeError" and len(args) == 2 and args[0] == "boom" and isinstance(args[1], int):
         return "(ERuntime %s)" % cZ(args[1])
-    if cls == "AttributeError" and len(args) == 1 and isinstance(args[0], str):
-        m = args[0]
-        if m.startswith("attempt to access private attribute"):
-            return "(EAttr WPrivate)"
-        if m.startswith("attempt to access unexposed attribute"):
-            return "(EAttr WUnexposed)"
-        if re.search(r"object has no attribute '(nosuch|add\.__call__)'$", m):
-            return "(EAttr WMissing)"
+    w = REFUSAL_SEEN.get((cls, json.dumps(args, sort_keys=True, default=repr)))
+    if w is not None:
+        return "(EAttr %s)" % w
     return "ESubmit"     # anything the model has no name for: compares unequal to every modelled outcome of a call
 
 
@@ -377,9 +386,9 @@ def c_case(case, obs, broken):
             return None
     if not isinstance(ob["state"], int) or not isinstance(os_["state"], int):
         return None
-    return ("One {| k_oneway := %s; k_submit_broken := %s; k_s0 := %s; k_calls := %s; k_b_state := %s; k_b_log := %s; "
+    return ("One {| k_oneway := %s; k_submit_broken := %s; k_excval_breaks_reply := %s; k_s0 := %s; k_calls := %s; k_b_state := %s; k_b_log := %s; "
             "k_b_view := %s; k_q_state := %s; k_q_log := %s; k_q_outs := %s |}") % (
-        cbool(case["oneway"]), cbool(broken), cZ(case["s0"]),
+        cbool(case["oneway"]), cbool(broken), cbool(case["ser"] in EXC_SINGLE_ONLY), cZ(case["s0"]),
         clist([c_call(n, (0 if n in NOARG else a)) for n, a, _ in case["calls"]]),
         cZ(ob["state"]), c_log(ob["log"]), view, cZ(os_["state"]), c_log(os_["log"]), clist(qouts))
 
@@ -702,7 +711,7 @@ def gen_cases(ctx):
                 "s0": rng.choice([0, 0, 1, 5, 100, -3, rng.randint(-10 ** 6, 10 ** 6)]), "calls": calls}
         if not oneway and rng.random() < 0.15:
             case["submit"] = "invoke"
-        if case["ser"] in CARRIES_EXC and rng.random() < 0.15:
+        if (case["ser"] in CARRIES_EXC or case["ser"] in EXC_SINGLE_ONLY) and rng.random() < 0.15:
             # a member that succeeds and RETURNS an exception object, anywhere in the batch
             calls.insert(rng.randint(0, len(calls)), ["lasterr", rng.choice(ARGS), rng.random() < 0.3])
         cases.append(case)
@@ -724,7 +733,7 @@ def targeted():
                     calls.insert(pos, list(f))
                     out.append({"ser": ser, "oneway": oneway, "s0": 1, "calls": calls})
             out.append({"ser": ser, "oneway": oneway, "s0": 3, "calls": [["add", 1, False], ["add", 2, False], ["__len__", 0, False], ["__getitem__", 4, True], ["add", 3, False], ["__len__", 0, False]]})
-            if ser in CARRIES_EXC:
+            if ser in CARRIES_EXC or ser in EXC_SINGLE_ONLY:
                 # returned is not raised: an exception object as a member's VALUE, at every position, with calls after it
                 for pos in range(4):
                     calls = [["add", 2, False], ["mul", 3, True], ["add", 5, False]]
@@ -802,7 +811,20 @@ def probe_all(res):
         res.quirks["batch_submit_fails:" + ser] = b
         if b:
             broken.add(ser)
+    REFUSAL_SEEN.clear()
+    for ser in SERIALIZERS:
+        for name in REFUSED:
+            args, kwargs = call_args(name, 1, False)
+            e = env()
+            e.b.total, e.b.log = 0, []
+            try:
+                e.pb[ser]._pyroInvoke(name, args, kwargs)
+            except Exception as x:
+                if not e.b.log:       # refused without running anything
+                    c = exc_canon(x)
+                    REFUSAL_SEEN[(c["cls"], json.dumps(c["args"], sort_keys=True, default=repr))] = WHY[name]
     CARRIES_EXC.clear()
+    EXC_SINGLE_ONLY.clear()
     for ser in SERIALIZERS:
         try:
             v = env().pb[ser].errlist()
@@ -812,6 +834,14 @@ def probe_all(res):
         res.quirks["carries_exception_object_in_list:" + ser] = ok
         if ok:
             CARRIES_EXC.add(ser)
+        else:
+            try:
+                v = env().pb[ser].lasterr(2)
+                if isinstance(v, ValueError) and tuple(v.args)[:1] == ("underflow",):
+                    EXC_SINGLE_ONLY.add(ser)
+            except Exception:
+                pass
+        res.quirks["returned_exception_breaks_batch_reply:" + ser] = ser in EXC_SINGLE_ONLY
     try:
         res.quirks["queue_survives_failed_submit"] = probe_keep()
     except Exception:
